@@ -9,6 +9,7 @@ mod exec;
 mod explore;
 mod monitors;
 mod hooks;
+mod known_tests;
 mod mpcrun;
 mod replay;
 mod schema;
